@@ -28,7 +28,9 @@ Proof. exact link_symmetric. Qed.
 Print Assumptions C20_link_symmetric.
 
 (* For ALL sequences of operations applied from either side (re-link in either direction, scalar parameter edits, TEM waveform
-   edits that update the nested dict in place, re-opens), the invariant is preserved (induction over the sequence). *)
+   edits that update the nested dict in place, airborne orientation/offset parameters — one edit writing "<Field> value" /
+   "<Field> property" and REMOVING the other entry ([PParam], [em_param]) — and re-opens), the invariant is preserved
+   (induction over the sequence). *)
 Theorem C20_edit_shared : forall w u1 u2 l s,
   inv s w u1 u2 -> Forall pop_ok l -> inv (fold_left (pstep w u1 u2) l s) w u1 u2.
 Proof. exact edit_shared. Qed.
